@@ -536,6 +536,7 @@ func OpaqueGlob(pattern string) []string { m, _ := filepath.Glob(pattern); retur
 //@   checks[C18,C16] large-offset-aborts: implies(called(ParseUint) && resultOf(ParseUint, 1) != nil && len(reGroup(regex.RuleIdFileNameRegex, resultOf(Name, 0), 2)) > 0, r != nil)
 //@   checks[C18] same-grammar: implies(called(processRule), reMatch(regex.RuleIdFileNameRegex, resultOf(Name, 0)))
 //@   checks[C15] only-ra-files: implies(called(processRule), resultOf(Ext, 0) == ".ra")
+//@   checks[C18,C11,C08] id-and-offset-from-this-file-name: implies(called(processRule), argOf(processRule, 0) == reGroup(regex.RuleIdFileNameRegex, resultOf(Name, 0), 1) && argOf(processRule, 1) == ite(len(reGroup(regex.RuleIdFileNameRegex, resultOf(Name, 0), 2)) == 0, 0, utils.OpaqueDec(reGroup(regex.RuleIdFileNameRegex, resultOf(Name, 0), 2))) && argOf(processRule, 2) == filePath)
 
 //@ contract performCompare#0
 //@   tags C18 C16 C08 C15
@@ -544,6 +545,9 @@ func OpaqueGlob(pattern string) []string { m, _ := filepath.Glob(pattern); retur
 //@   checks[C18,C16] large-offset-aborts: implies(called(ParseUint) && resultOf(ParseUint, 1) != nil && len(reGroup(regex.RuleIdFileNameRegex, resultOf(Name, 0), 2)) > 0, r != nil)
 //@   checks[C18] same-grammar: implies(called(processRegexForCompare), reMatch(regex.RuleIdFileNameRegex, resultOf(Name, 0)))
 //@   ensures[C15] reads-only: fsWrites() == old(fsWrites())
+//@   checks[C18,C12,C08] id-and-offset-from-this-file-name: implies(called(processRegexForCompare), argOf(processRegexForCompare, 0) == reGroup(regex.RuleIdFileNameRegex, resultOf(Name, 0), 1) && argOf(processRegexForCompare, 1) == ite(len(reGroup(regex.RuleIdFileNameRegex, resultOf(Name, 0), 2)) == 0, 0, utils.OpaqueDec(reGroup(regex.RuleIdFileNameRegex, resultOf(Name, 0), 2))) && argOf(runAssemble, 0) == filePath)
+//@   checks[C12,C16] a-difference-is-never-forgotten: implies(old(failed), failed)
+//@   checks[C12,C16] a-difference-is-recorded: implies(called(processRegexForCompare) && resultOf(processRegexForCompare, 0) != nil && called(Is) && resultOf(Is, 0), failed)
 
 // ---- C20: the running version handed to the updater must be comparable -------------------------
 // (a development build hands in "dev", which Release.LessOrEqual cannot parse)
